@@ -514,8 +514,34 @@ func c39summary(path string) (sum string, f *ast.File, fset *token.FileSet, err 
 	if f == nil || f.Name == nil {
 		return "", nil, nil, err
 	}
-	// on a syntax error the parser still returns the declarations it could delimit: the summary is taken from them,
-	// the error is reported by the caller
+	if err != nil {
+		// a syntax error inside one declaration derails the parser for the rest of the file.  The writer puts every
+		// declaration on lines of its own, starting in column 0 with its keyword: parse them one by one (the error is
+		// reported by the caller; the summary still says which declarations were written)
+		src, _ := os.ReadFile(path)
+		var chunks []string
+		for _, l := range strings.SplitAfter(string(src), "\n") {
+			start := false
+			for _, kw := range []string{"func ", "type ", "var ", "const ", "import ", "type(", "var(", "const(", "import("} {
+				if strings.HasPrefix(l, kw) {
+					start = true
+				}
+			}
+			if start || len(chunks) == 0 {
+				chunks = append(chunks, l)
+			} else {
+				chunks[len(chunks)-1] += l
+			}
+		}
+		var decls []ast.Decl
+		for _, c := range chunks[1:] {
+			cf, _ := parser.ParseFile(token.NewFileSet(), "c.go", "package p\n"+c, parser.SkipObjectResolution)
+			if cf != nil && len(cf.Decls) > 0 {
+				decls = append(decls, cf.Decls[0])
+			}
+		}
+		f.Decls = decls
+	}
 	var is, ds []string
 	nstmt := 0
 	for i, d := range f.Decls {
@@ -691,6 +717,12 @@ func c39prepare(ops []string) {
 		}
 		printed, err := c39preprocess(dir, files, target, flags)
 		res.nfiles = len(files)
+		opDefect := "" // what is printed belongs to the whole run: a recorded defect family of ANY file of the directory explains it
+		for _, f := range files {
+			if f.defect != "" && opDefect == "" {
+				opDefect = f.defect
+			}
+		}
 		var outs []string
 		for fi, f := range files {
 			tag := func(t string) { res.tags = append(res.tags, t) }
@@ -717,7 +749,11 @@ func c39prepare(ops []string) {
 				viol("preprocess-error", fmt.Sprintf("cmd.Main returned %v", err))
 			}
 			if f.valid && strings.TrimSpace(c39dropWarnings(printed, kind == "dir")) != "" {
-				viol(c39keyFor(f, "preprocess-prints-error"), fmt.Sprintf("preprocessing a valid source printed: %s\n--- source\n%s", truncate(printed, 600), f.source()))
+				key := "preprocess-prints-error"
+				if opDefect != "" {
+					key = opDefect
+				}
+				viol(key, fmt.Sprintf("preprocessing a valid source printed: %s\n--- source\n%s", truncate(printed, 600), f.source()))
 			}
 			// imports preserved (every valid source, macro-generated imports included)
 			if f.valid {
@@ -957,6 +993,24 @@ func c39buildBatch(batch string, pkgs []string) {
 	}
 }
 
+// which Cmd.EvalFile is under test: does it empty g.Imports before reading the file?
+func c39evalFileResetsImports() (resets bool) {
+	defer func() {
+		if recover() != nil {
+			resets = false
+		}
+	}()
+	dir := workDir("C39probe")
+	path := filepath.Join(dir, "probe.gomacro")
+	os.WriteFile(path, []byte("package probe\n"), 0o644)
+	cmd := gcmd.New()
+	g := &cmd.Interp.Comp.Globals
+	g.Stdout, g.Stderr = &bytes.Buffer{}, &bytes.Buffer{}
+	g.Imports = []*ast.GenDecl{{Tok: token.IMPORT}}
+	cmd.EvalFile(path)
+	return len(g.Imports) == 0
+}
+
 func c39execFile(op string) Result {
 	res := c39results[op]
 	if res == nil {
@@ -992,9 +1046,13 @@ func c39gen(r *rand.Rand, tier string, emit func(string)) {
 		seed := r.Int63n(1 << 40)
 		emit(fmt.Sprintf("file 11 %d %s", seed, c39descr(c39makeFiles("file", seed))))
 	}
+	dopts := "11"
+	if !c39evalFileResetsImports() {
+		dopts = "11u" // the EvalFile under test is the one that keeps g.Imports: the model has both transcriptions
+	}
 	for i := 0; i < ndir; i++ {
 		seed := r.Int63n(1 << 40)
-		emit(fmt.Sprintf("dir 11 %d %s", seed, c39descr(c39makeFiles("dir", seed))))
+		emit(fmt.Sprintf("dir %s %d %s", dopts, seed, c39descr(c39makeFiles("dir", seed))))
 	}
 }
 
